@@ -47,6 +47,8 @@ def handler_methods(cls):
 
 
 def check(prog, run):
+    from . import c06 as _c06v
+    _c06v.check_allowed_position_table(prog, run, "V1")   # = C06.V1: a usage validation lets through wrongly reaches coercion with a null
     from . import c06 as _c06
     _c06.check_parent_exclusivity(prog, run, "E1")   # = C06.E1: a pair validation lets through is answered by whichever field is written first
     rcs = c06.rule_classes(prog)
